@@ -532,7 +532,9 @@ fn pw_number_edges(cx: &mut Ctx, idx: &mut u64) {
                 // canonical base64 of 16 / 32 random bytes, so that the number is the only unusual part
                 let s = format!("${}$v={}$m={},t={},p={}${}${}", alg, v, m, t, p, b64enc_nopad(&rng.bytes(16)), b64enc_nopad(&rng.bytes(32)));
                 cx.key(&format!("pw_number_edges {} {} {}", field, ni_, alg));
-                pw_case(cx, &s, "number_edges", false);
+                // hashing is attempted whenever the costs the string parses to are small (an edge value in the version or
+                // lane field leaves m = 64, t = 2: the verifier must refuse or hash cheaply, not compute with the edge value)
+                pw_case(cx, &s, "number_edges", cx.tier != Tier::Tiny);
                 cx.cover("pw_number_edge_field", field);
             }
         }
